@@ -214,6 +214,11 @@ func runC16Handshake(c *Ctx) {
 	add("65536 payload bytes", nil, cutSegments(c.Rng, setLen(big, 65536), 4))
 	add("65535 announced, 10 sent", nil, cutSegments(c.Rng, setLen(big[:16], 65535), 0))
 	add("empty", nil, nil)
+	// a peer that announces a huge message and keeps sending: the reader must stop at the cap
+	flood := make([]byte, 6+200000)
+	flood[0], flood[1] = 87, 1
+	add("16 MiB announced, 200 KB sent", nil, cutSegments(c.Rng, setLen(flood, 1<<24), 3))
+	add("65535 announced, 200 KB sent", nil, cutSegments(c.Rng, setLen(flood, 65535), 4))
 	// --- random stream --------------------------------------------------------------------
 	n := c.N(1500, 40000)
 	for i := 0; i < n; i++ {
